@@ -20,7 +20,7 @@ PYTHONPATH=$wt MPLBACKEND=Agg /venv/bin/python $out/demo.py > /tmp/wtc/$name.dem
 PYTHONPATH=$wt MPLBACKEND=Agg /venv/bin/python -m pytest -q -p no:cacheprovider --timeout=900 -n ${NPROC:-6} exactpack/tests > /tmp/wtc/$name.suite 2>&1
 line=$(tail -1 /tmp/wtc/$name.suite)
 failed=$(grep "^FAILED" /tmp/wtc/$name.suite | tr '\n' ';')
-git checkout -q -- . ; git clean -fdq
+git reset -q --hard HEAD; git clean -fdq
 PYTHONPATH=$wt MPLBACKEND=Agg /venv/bin/python $out/demo.py > /tmp/wtc/$name.demo_clean 2>&1; d0=$?
 cd /; git -C /repo worktree remove --force $wt
 head=$(git -C /repo log --format=%h -1 $base)
